@@ -1,5 +1,5 @@
 (* DistProofsB.v -- C11-B (first part): scale and sort_rows of a distributed matrix. *)
-From Coq Require Import Permutation.
+From Coq Require Import Permutation Sorted.
 From Amgcl Require Import Scalar Vec Crs Kernels MatOps MatOpsProofs Dist DistProofs.
 Local Open Scope nat_scope.
 
@@ -68,3 +68,45 @@ Proof.
 Qed.
 
 End ScaleSort.
+
+(* ------------------------------------------------------------------ *)
+(* C11-A3, packaged *)
+Lemma renumbering_is_bijection (S : Scalar) (M : rank_mat S) :
+  let rc := rem_cols M in
+  (forall c, In c rc <-> exists rw e, In rw (rows (rm_rem M)) /\ In e rw /\ fst e = c) /\
+  NoDup rc /\
+  (forall c, In c rc -> index_of c rc < length rc /\ nth (index_of c rc) rc 0 = c) /\
+  (forall i, i < length rc -> index_of (nth i rc 0) rc = i) /\
+  (forall c c', In c rc -> In c' rc -> c < c' -> index_of c rc < index_of c' rc) /\
+  wf (renumber rc (rm_rem M)) = true.
+Proof.
+  intro rc. pose proof (sort_unique_sorted (flat_map (fun r : row S => map fst r) (rows (rm_rem M)))) as Hs.
+  repeat split.
+  - apply rem_cols_spec.
+  - apply rem_cols_spec.
+  - apply sorted_NoDup. exact Hs.
+  - apply index_of_In. assumption.
+  - apply index_of_In. assumption.
+  - intros i Hi. apply index_of_nth; [apply sorted_NoDup; exact Hs | exact Hi].
+  - intros c c'. apply index_of_mono. exact Hs.
+  - apply renumber_wf.
+Qed.
+
+Lemma patterns_mutually_consistent (cparts : list nat) (rcs : list (list nat)) :
+  length rcs = length cparts ->
+  (forall r, r < length cparts -> rc_ok cparts (nth r rcs [])) ->
+  let pats := comm_pattern cparts rcs in
+  forall q d, q < length cparts -> d < length cparts ->
+    nth d (cp_send (nth q pats dflt_cpat)) []
+      = map (fun c => c - pbeg cparts q) (nth q (cp_recv (nth d pats dflt_cpat)) []) /\
+    (forall c, In c (nth q (cp_recv (nth d pats dflt_cpat)) []) ->
+       In c (cp_rc (nth d pats dflt_cpat)) /\ pbeg cparts q <= c < pbeg cparts q + psize cparts q) /\
+    concat (cp_recv (nth d pats dflt_cpat)) = cp_rc (nth d pats dflt_cpat).
+Proof.
+  intros Hl Hok pats q d Hq Hd. repeat split.
+  - exact (send_recv_consistent cparts rcs Hl q d Hq Hd).
+  - exact (proj1 (recv_cols_owned cparts rcs Hl Hok q d c Hq Hd H)).
+  - exact (proj1 (proj2 (recv_cols_owned cparts rcs Hl Hok q d c Hq Hd H))).
+  - exact (proj2 (proj2 (recv_cols_owned cparts rcs Hl Hok q d c Hq Hd H))).
+  - exact (recv_concat cparts rcs Hl Hok d Hd).
+Qed.
